@@ -18,6 +18,8 @@ def run_seed(sid, thorough_if_missed):
     props = meta.get("run_against", [prop])
     if meta.get("superseded"):
         return dict(seed=sid, property=prop, repo_head="", applies=False, caught=False, runs=[], superseded=True)
+    if meta.get("neutralised"):
+        return dict(seed=sid, property=prop, repo_head="", applies=True, caught=False, runs=[], neutralised=True)
     wt = "/tmp/seedsweep/" + sid
     os.makedirs("/tmp/seedsweep", exist_ok=True)
     subprocess.run(f"git -C /repo worktree remove --force {wt}", shell=True, capture_output=True)
@@ -77,7 +79,7 @@ def main():
         m = json.load(open(os.path.join(os.path.dirname(p), "meta.json")))
         tier = next((x["tier"] for x in r["runs"] if x["rc"] == 1), "-")
         units = sorted({u for x in r["runs"] if x["rc"] == 1 for u in x["units"]})
-        rows.append(f"| {r['seed']} | {m.get('files', [''])[0] if m.get('files') else ''} | {'yes' if r['applies'] else 'NO'} | {'superseded' if r.get('superseded') else ('caught (' + tier + ')' if r['caught'] else 'MISSED')} | {', '.join(units)} | {r['repo_head']} |")
+        rows.append(f"| {r['seed']} | {m.get('files', [''])[0] if m.get('files') else ''} | {'yes' if r['applies'] else 'NO'} | {'superseded' if r.get('superseded') else 'neutralised by a later fix' if r.get('neutralised') else ('caught (' + tier + ')' if r['caught'] else 'MISSED')} | {', '.join(units)} | {r['repo_head']} |")
     with open(os.path.join(SEEDED, "RESULTS.md"), "w") as f:
         f.write("# Seeded changes vs the checks\n\nWritten by tools/seedsweep.py (each change applied to a scratch worktree of /repo HEAD, `./check <property>` run with VERIF_REPO).\n\n")
         f.write("| seed | first file touched | applies | result | reporting units / pinned reproducers | /repo HEAD |\n|---|---|---|---|---|---|\n")
